@@ -78,7 +78,13 @@ def braced(lines, rnd, style):
             pts = break_points(t)
             if pts:
                 i = rnd.choice(pts)
-                out.append(pre + t[:i])
+                if rnd.random() < 0.3:
+                    # an escaped line break (the '_' swallows the newline and the white space after it, blank lines included)
+                    out.append(pre + t[:i] + " _")
+                    if rnd.random() < 0.5:
+                        out += rnd.choice([[""], ["   "], ["", " \t"]])
+                else:
+                    out.append(pre + t[:i])
                 t = " " * rnd.randrange(0, 6) + t[i + 1:]
                 pre = pre + "  "
         if rnd.random() < style.get("trailing", 0) and not text.startswith("#"):
@@ -92,7 +98,8 @@ OPENERS = ("{",)
 
 def piled(lines, rnd, style):
     """the same program in indentation-structured form; '#pile' is the first line so that the whole file is one pile"""
-    out = ["#pile"]
+    # the directive line may carry trailing white space or a comment
+    out = ["#pile" + rnd.choice(["", "", "  ", "\t", "   -- piled from here", " \t-- x"])]
     width = style["indent"]
     for ind, text in lines:
         t = text
@@ -120,8 +127,11 @@ def piled(lines, rnd, style):
             if pts:
                 i = rnd.choice(pts)
                 out.append(pre + t[:i] + " _")
+                if rnd.random() < 0.4:
+                    out += rnd.choice([[""], ["   "], ["", " \t"]])      # blank / white-space-only lines after the escape are swallowed with it
                 t = t[i + 1:].lstrip()
-                pre = pre + ("\t\t" if width == "tab" else " " * (2 * width + 1))
+                # the continuation's indentation is immaterial (the escape removes the line break before piles are formed)
+                pre = rnd.choice([pre + ("\t\t" if width == "tab" else " " * (2 * width + 1)), pre, ""])
         if rnd.random() < style.get("trailing", 0):
             t = t + "  " + rnd.choice(COMMENTS[:2] + COMMENTS[3:])
         out.append(pre + t)
